@@ -20,8 +20,8 @@ ID = "C17"
 CASES = {"quick": 640, "thorough": 8000}
 FLOOR = {"quick": 450, "thorough": 6000}
 FLOOR_COUNTERS = {
-    "quick": {"queries_sharing_a_coordinate": 150, "bandwidths_judged": 3000, "queries_judged": 2500, "assignments_judged": 30000, "degenerate_cloud_models": 80, "periodic_models": 100, "relation_pairs": 900, "oas_calls_seen": 3000, "estimators_with_a_past": 120},
-    "thorough": {"queries_sharing_a_coordinate": 2000, "bandwidths_judged": 45000, "queries_judged": 35000, "assignments_judged": 450000, "degenerate_cloud_models": 1000, "periodic_models": 1300, "relation_pairs": 12000, "oas_calls_seen": 45000, "estimators_with_a_past": 1800},
+    "quick": {"queries_sharing_a_coordinate": 150, "bandwidths_judged": 3000, "queries_judged": 2500, "assignments_judged": 30000, "degenerate_cloud_models": 80, "periodic_models": 100, "relation_pairs": 900, "oas_calls_seen": 3000, "estimators_with_a_past": 120, "metric_given_explicitly": 200, "models_with_zero_weights": 40},
+    "thorough": {"queries_sharing_a_coordinate": 2000, "bandwidths_judged": 45000, "queries_judged": 35000, "assignments_judged": 450000, "degenerate_cloud_models": 1000, "periodic_models": 1300, "relation_pairs": 12000, "oas_calls_seen": 45000, "estimators_with_a_past": 1800, "metric_given_explicitly": 2500, "models_with_zero_weights": 500},
 }
 RULE = (
     "case = descriptor cloud (1-4 dimensions, 30-160 points; multi-modal / anisotropic / collinear / constant coordinate / "
@@ -99,7 +99,8 @@ def gen(rng, tier, index):
     loc = {"fpoints": float(rng.uniform(0.02, 0.9))} if rng.random() < 0.6 else {"fspread": float(10.0 ** rng.uniform(np.log10(0.05), np.log10(3.0)))}
     return {
         "D": D,
-        "w": None if rng.random() < 0.5 else rng.uniform(0.2, 2.0, size=n),
+        "w": None if rng.random() < 0.5 else rng.uniform(0.2, 2.0, size=n) * (rng.random(n) >= (0.15 if rng.random() < 0.3 else 0.0)),  # some sets with exactly-zero weights
+        "metric_route": gens.pick(rng, ("none", "none", "explicit", "partial", "wrapper")),
         "kind": kind,
         "cell": cell,
         "grid_kind": gk,
@@ -242,6 +243,24 @@ def _model(case, D, w, G, cell, probe, past=True):
     from skmatter.neighbors import SparseKDE
 
     mp = None if cell is None else {"cell_length": cell.copy()}
+    route = case.get("metric_route", "none")
+    mkw = {}
+    if route != "none":
+        # the same periodic metric handed over explicitly, in the public forms a user would write it
+        import functools
+
+        from skmatter.metrics import periodic_pairwise_euclidean_distances as _ped
+
+        if route == "explicit":
+            mkw["metric"] = _ped
+        elif route == "partial":
+            mkw["metric"] = functools.partial(_ped)
+        else:
+            def forwarding(X, Y=None, **kwargs):
+                return _ped(X, Y, **kwargs)
+
+            mkw["metric"] = forwarding
+        probe.metric_route = route
     est = None
     if case.get("past") and past:
         # an estimator with a past: fit on another grid (other size), evaluate (fills whatever is derived lazily from
@@ -255,7 +274,7 @@ def _model(case, D, w, G, cell, probe, past=True):
             if m0 < 2 or m0 > len(Du):
                 raise ValueError("no second grid")
             with Probe():
-                e0 = SparseKDE(D.copy(), None if w is None else w.copy(), metric_params=mp, **case["loc"])
+                e0 = SparseKDE(D.copy(), None if w is None else w.copy(), metric_params=mp, **mkw, **case["loc"])
                 e0.fit(Du[pr0.permutation(len(Du))[:m0]].copy())
                 q0 = D[pr0.permutation(len(D))[:5]] + 0.01 * pr0.normal(size=(min(5, len(D)), D.shape[1]))
                 if np.all(np.isfinite(e0.bandwidth_)):
@@ -267,7 +286,7 @@ def _model(case, D, w, G, cell, probe, past=True):
             est = None
     with probe:
         if est is None:
-            est = SparseKDE(D.copy(), None if w is None else w.copy(), metric_params=mp, **case["loc"])
+            est = SparseKDE(D.copy(), None if w is None else w.copy(), metric_params=mp, **mkw, **case["loc"])
         est.fit(G.copy())
     return est
 
@@ -292,6 +311,7 @@ def _mixture(est, D, wn, G, cell, labels, Q):
             else:
                 mem = np.flatnonzero(labels == g)
                 mem = mem[np.any(D[mem] != q, axis=1)] if len(mem) else mem
+                mem = mem[wn[mem] > 0] if len(mem) else mem  # a descriptor of weight zero contributes nothing
                 if len(mem):
                     _, dd = _dist2(D[mem], q[None, :], cell)
                     m2s = np.einsum("ij,jk,ik->i", dd[:, 0, :], Hi[g], dd[:, 0, :])
@@ -388,6 +408,10 @@ def run(case, j):
             j.judged -= 1
             raise Skip("proviso:localisation-reaches-no-other-grid-point(exception)")
         raise
+    if getattr(pr, "metric_route", None):
+        j.note("metric_given_explicitly")
+    if w is not None and np.any(w == 0):
+        j.note("models_with_zero_weights")
     if getattr(pr, "past", False):
         j.note("estimators_with_a_past")
         j.tag("history:refit-on-other-grid-after-scoring")
